@@ -264,10 +264,12 @@ def name_foreign(rnd, data):
             at = len(storage)
             storage += s
         where[s] = at
-    out = struct.pack(">HHH", 0, count, 6 + 12 * count)
+    gap = rnd.choice([0, 2, 5, 12])           # bytes between the records and the string storage
+    out = struct.pack(">HHH", 0, count, 6 + 12 * count + gap)
     for pid, eid, lid, nid, s in recs:
         out += struct.pack(">6H", pid, eid, lid, nid, len(s), where[s])
-    return out + bytes(storage), "name: %d records over %d stored strings, %d overlapping" % (count, len(uniq), shared)
+    return out + b"\x55" * gap + bytes(storage), \
+        "name: %d records over %d stored strings, %d overlapping, %d-byte gap before storage" % (count, len(uniq), shared, gap)
 
 
 # =============================================================== post
